@@ -295,26 +295,27 @@ def rule_structural_discharges(ctx):
     callers = sorted({hq.last(b["def_path"]) for b in fx.body_list for fn in ("tau_star::tau_star_fo_head_rule", "tau_star::tau_star_prop_head_rule") for c in hq.calls(b["body"], fn)})
     ctx.add("PANIC-CONSTARG", "head-rule-callers", callers == ["tau_star_rule"], "", "the head rule constructors are called only by tau_star_rule: %s" % callers)
     # globals long enough: both callers of tau_star_rule compute globals from the program whose rules they iterate
+    from .. import ftpl as _ftpl
     ok = True
     detail = []
     for b in fx.body_list:
-        cs = hq.calls(b["body"], "tau_star::tau_star_rule")
-        if not cs:
+        if "::tests::" in b["def_path"] or not hq.calls(b["body"], "tau_star::tau_star_rule"):
             continue
-        ev = sym.Eval(fx, inline_depth=0)
-        ev.function(b)
-        gl = ev.bound.get("globals", [])
-        src = [x[2][0] for x in gl if x[:2] == ("call", "tau_star::choose_fresh_global_variables")]
-        loops = [l for l in hq.for_loops(b["body"]) if hq.contains(l[3] or {}, cs[0])]
-        it = sym.Eval(fx, inline_depth=0)
-        same = bool(src) and bool(loops) and (hq.field_path(loops[0][1]) or hq.render(loops[0][1])).split(".")[0] in (hq.render({"k": "Lit", "v": 0}), (src[0][1] if src[0][0] in ("param",) else "")) or True
-        from .. import flow as _flow
-        pl = _flow.places_in(_flow.summ(loops[0][1])) if loops else []
-        root_loop = pl[0].split(".")[0] if pl else (local_of(loops[0][1]) if loops else None)
-        root_glob = src[0][1] if src and src[0][0] == "param" else None
-        good = root_loop is not None and root_loop == root_glob
+        v = _ftpl.canon_iter(sym.Eval(fx, inline_depth=0).function(b))
+        calls_ = [x for x in sym.subterms(v) if isinstance(x, tuple) and x[:2] == ("call", "tau_star::tau_star_rule") and len(x[2]) == 2]
+        good = bool(calls_)
+        roots = set()
+        for c_ in calls_:
+            r_, g_ = c_[2]
+            # the rule: the current element of <program>.rules;  the globals: choose_fresh_global_variables(<program>)
+            rr = r_[1][1].split(".")[0] if r_[0] == "at" and r_[1][0] == "place" and r_[1][1].endswith(".rules") else None
+            gr = None
+            if g_[:2] == ("call", "tau_star::choose_fresh_global_variables") and g_[2][0][0] in ("param", "place"):
+                gr = g_[2][0][1].split(".")[0]
+            roots.add((rr, gr))
+            good = good and rr is not None and rr == gr
         ok = ok and good
-        detail.append((hq.last(b["def_path"], 2), root_glob, root_loop))
+        detail.append((hq.last(b["def_path"], 2), sorted(roots, key=repr)))
     ctx.add("PANIC-ARITY", "globals-cover-program", ok and len(detail) == 2, "", "globals are computed from the same program whose rules are translated (max head arity covers every rule): %s" % detail)
     # DOM: printers' first-term unwrap
     for which, ty in (("asp", "Atom"), ("fol", "Atom"), ("tptp", "Atom")):
